@@ -79,6 +79,8 @@ def _fresh_registry():
     reg.add("lo", np.array([0., 0., 0.]), "array")
     reg.add("hi", np.array([1., 2., 3.]), "array")
     reg.add("pad3", np.array([0.5, 0., 1.]), "array")
+    reg.add("padneg", np.array([0.5, -2., 1.]), "array")        # a negative entry (documented as ignored)
+    reg.add("padnegv", Vec(-1., 0.25, -3.), "array")
     reg.add("B0", AABB(np.array([-1., -1., -1.]), np.array([0.5, 0.5, 0.5])), "box")
     reg.add("M1", M.procedural.unit_grid(2, 2), "mesh")
     reg.add("M2", M.procedural.unit_grid(2, 3), "mesh")
@@ -145,6 +147,8 @@ def _catalogue():
     add("AABB.pad", lambda r, bx: bx.pad(1.), ["B0"])
     add("AABB.pad/vector", lambda r, bx, p: bx.pad(p), ["B0", "pad3"])
     add("AABB.pad/wrong_dim", lambda r, bx, p: bx.pad(p), ["B0", "p2"])
+    add("AABB.pad/vector_with_negative_entries", lambda r, bx, p: bx.pad(p), ["B0", "padneg"])
+    add("AABB.pad/vec_with_negative_entries", lambda r, bx, p: bx.pad(p), ["B0", "padnegv"])
     add("AABB.contains_point", lambda r, bx, x: bx.contains_point(x), ["B0", "c"])
     add("AABB.contains_point/wrong_dim", lambda r, bx, x: bx.contains_point(x), ["B0", "p2"])
     add("AABB.project", lambda r, bx, x: bx.project(x), ["B0", "c"])
@@ -331,7 +335,10 @@ def exec_prim(case):
             elif op == "rotate_around_axis":
                 ax, ang = ROT_ANGLE[a[1]]
                 axis = np.array(AXIS[ax]) * ev.get("axis_scale", 1.0)
-                e["ret"] = rseq(G.rotate_around_axis(Vec(f(a[0])), Vec(axis), ang))
+                inp = a[0]
+                how = ev.get("as", "vec")            # the rotated vector may be given with integer entries (a list, an integer array, an integer Vec)
+                arg = Vec(f(inp)) if how == "vec" else (list(inp) if how == "list" else (np.array(inp, dtype=int) if how == "intarray" else Vec(*[int(x) for x in inp])))
+                e["ret"] = rseq(G.rotate_around_axis(arg, Vec(axis), ang))
             elif op == "rotate_2d":
                 _, ang = ROT_ANGLE[a[1]]
                 e["ret"] = rseq(G.rotate_2d(Vec(f(a[0])), ang))
@@ -422,7 +429,7 @@ def _prim_cases(rng, thorough):
     for k in range(1, 9):
         for _ in range(12 if thorough else 4):
             v = list(rng.choice(vecs))
-            evs.append({"op": "rotate_around_axis", "a": [v, k], "axis_scale": rng.choice([1.0, 2.0, 0.5])})
+            evs.append({"op": "rotate_around_axis", "a": [v, k], "axis_scale": rng.choice([1.0, 2.0, 0.5]), "as": rng.choice(["vec", "vec", "list", "intarray", "intvec"])})
             if k >= 5:
                 evs.append({"op": "rotate_2d", "a": [v[:2], k]})
     return evs
